@@ -26,14 +26,18 @@ def confirm_sem(ctx, cfg, lines, prop):
     rp = dict(kind="sem", property=prop, cfg=cfg, case={k: case[k] for k in ("id", "corpus", "text", "rawvars", "bal", "meta", "flagovd", "varvals")})
     path = os.path.join(ctx.work, "cand%d.json" % len(os.listdir(ctx.work)))
     json.dump(rp, open(path, "w"))
-    out = ctx.vh_json(["rerun", path])
-    fresh = out["lines"]
-    tpath = path + ".ndjson"
-    with open(tpath, "w") as f:
-        for l in fresh:
-            f.write(json.dumps(l) + "\n")
-    r = ctx.tlc_trace("MachineTrace", cfg, tpath, label="confirmation of a candidate")
-    hits = [v for v in r["viols"] if v["prop"] == prop]
+    # (a violation that depends on the iteration order of a map may need more than one attempt to show again)
+    for attempt in range(4):
+        out = ctx.vh_json(["rerun", path])
+        fresh = out["lines"]
+        tpath = path + ".ndjson"
+        with open(tpath, "w") as f:
+            for l in fresh:
+                f.write(json.dumps(l) + "\n")
+        r = ctx.tlc_trace("MachineTrace", cfg, tpath, label="confirmation of a candidate")
+        hits = [v for v in r["viols"] if v["prop"] == prop]
+        if hits:
+            break
     rp["observed"] = fresh[1:]
     rp["tlc"] = hits
     return hits, rp
